@@ -5,7 +5,11 @@ without an overlay and the invariants tie both together).  TLC explores the boun
 by random simulation; every transition is replayed (pattern R) on flushable.Wrap over memorydb, LevelDB and
 Pebble, on flushable over flushable, and on LazyFlushable; after each step the harness compares Get/Has for
 all probe keys, every (prefix, start) iteration, NotFlushedPairs, the content of the underlying store and all
-live snapshots with what the specification says; random walks run on long-lived stores."""
+live snapshots with what the specification says; random walks run on long-lived stores.
+Iterators held open across writes, flushes and drops are recorded from the real store (pattern T) and
+validated by TLC against specs/kv/FlushableIter.tla, which demands only what holds for any interleaving."""
+import json
+
 import vlib
 from checks import c23 as kvlib
 
@@ -33,9 +37,28 @@ def run(c):
     kvlib.guard_ops(c, out, ("put", "del", "bput", "bdel", "bwrite", "breset", "breplay", "flush", "drop", "snap",
                              "release", "clear", "goto"))
     reports = kvlib.summarize(out)
+    # ---- iterators held open while the store changes (pattern T)
+    tr = c.path("iter_trace.ndjson")
+    ist = json.loads(c.vh(["kviter", c.pick(300, 4000), tr]).stdout)
+    c.log("held-open iterators recorded:", ist)
+    for g in ("yields", "writes_under_iterator", "flush_under_iterator", "drop_under_iterator"):
+        c.guard("iter_" + g, ist.get(g, 0))
+    tv = vlib.validate_scenarios(c, "kv", "FlushableIter", tr)
+    for rej in tv["rejections"]:
+        rec = rej["record"]
+        op = rec.get("op") if isinstance(rec, dict) else "?"
+        backend = rej["scenario"][0].get("backend")
+        c.violation("held-open-iterator", "%s:%s" % (backend, op),
+                    "flushable over %s: line %d of the scenario, %s, is not allowed by FlushableIter.tla (keys ascending inside "
+                    "the range; every yielded pair was in the view between creation and yield; no panic)" % (
+                        backend, rej["line"], json.dumps(rec)[:300]), replay=rej)
+    c.log("held-open iterator traces: %d scenarios, %d lines validated, %d rejections" % (
+        tv["scenarios"], tv["validated_lines"], len(tv["rejections"])))
     return c.finish("model_checking", dict(
         states=res.distinct + sns, transitions=res.generated + sne,
-        traces_validated_against_impl=sum(r["walks"] for r in reports.values()),
+        traces_validated_against_impl=sum(r["walks"] for r in reports.values()) + tv["scenarios"],
+        held_open_iterator_scenarios=tv["scenarios"], held_open_trace_lines_validated=tv["validated_lines"],
+        held_open_stats=ist,
         edges_replayed_on_impl=sum(r["applied"] for r in reports.values()),
         stacks=adapters,
         exhaustive=True,
@@ -47,6 +70,7 @@ def run(c):
         replay=reports, samples=kvlib.first_sample(out),
     ), assumptions=[
         "pre-states are built by writing the underlying store directly and the overlay through Put/Delete",
-        "iterators are created, drained and released within one observation; iterators held open across writes are not modelled",
+        "iterators held open across writes are only required to yield ascending in-range keys with pairs that were in the "
+        "view at some moment between creation and yield (the property does not say which concurrent writes they see)",
         "after Batch.Write the model only resets the batch",
         "TLC/SANY/Json module trusted; Go projection = Get/Has/NewIterator/NotFlushedPairs + direct read of the underlying store"])
